@@ -150,24 +150,21 @@ def _run_core(world, plan):
         ckw = _ep_kwargs(ccfg, world, 'client', by_responder['client'], world.handlers)
         client = RSocketClient(provider(ct), **ckw)
         world.tap_endpoint('client', client)
-        for name, cfg in (('client', ccfg), ('server', scfg)):
-            if cfg.get('max_sid'):
-                ep = world.endpoints[name]
-                ep._stream_control._maximum_stream_id = cfg['max_sid']
-                state.setdefault('max_sid', {})[name] = cfg['max_sid']
+        if scfg.get('max_sid'):
+            server._stream_control._maximum_stream_id = scfg['max_sid']
+        if scfg.get('sid_start') is not None:
+            server._stream_control._current_stream_id = scfg['sid_start']
 
         async def connect():
             await client.connect()
+            # connect() resets internals (a new StreamControl): apply the id-space knobs after it
             if ccfg.get('max_sid'):
-                # connect() resets internals (a new StreamControl): apply the id-space knob again
                 client._stream_control._maximum_stream_id = ccfg['max_sid']
-                if ccfg.get('sid_start') is not None:
-                    client._stream_control._current_stream_id = ccfg['sid_start']
+            if ccfg.get('sid_start') is not None:
+                client._stream_control._current_stream_id = ccfg['sid_start']
             world.rec('act', ep='client', what='connected')
 
         state['connect'] = loop.create_task(connect())
-        if scfg.get('max_sid') and scfg.get('sid_start') is not None:
-            server._stream_control._current_stream_id = scfg['sid_start']
 
     loop.call_soon(boot)
 
